@@ -198,9 +198,15 @@ def conds(n):
                 add(v, False)
         else:
             out.add(norm(t) if pos else "not " + _paren(t))
+            if not pos and isinstance(t, ast.Compare) and len(t.ops) == 1 and type(t.ops[0]) in _NEGOP:
+                # a false comparison is also known as the opposite comparison: not (x is not None)  ==  x is None
+                out.add(norm(ast.Compare(left=t.left, ops=[_NEGOP[type(t.ops[0])]()], comparators=t.comparators)))
     for t, b in guards(n):
         add(t, b)
     return out
+
+
+_NEGOP = {ast.Is: ast.IsNot, ast.IsNot: ast.Is, ast.Eq: ast.NotEq, ast.NotEq: ast.Eq, ast.Lt: ast.GtE, ast.GtE: ast.Lt, ast.Gt: ast.LtE, ast.LtE: ast.Gt, ast.In: ast.NotIn, ast.NotIn: ast.In}
 
 
 def _paren(t):
